@@ -11,10 +11,12 @@ import (
 	"go/ast"
 	"go/parser"
 	"go/token"
+	"hash/fnv"
 	"net/netip"
 	"os"
 	"path/filepath"
 	"strings"
+	"sync"
 	"sync/atomic"
 
 	"github.com/daeuniverse/dae/common/assets"
@@ -328,6 +330,9 @@ type trafficLeg struct {
 	negMergeable                                 *atomic.Int64
 	outcomes                                     hist
 	samples                                      atomic.Int64
+	dupSkipped                                   *atomic.Int64
+	seenMu                                       sync.Mutex
+	seen                                         map[uint64]struct{}
 }
 
 func newTrafficLeg(r *vlib.Run, f *findings, finder *assets.LocationFinder, chain []string) *trafficLeg {
@@ -336,7 +341,8 @@ func newTrafficLeg(r *vlib.Run, f *findings, finder *assets.LocationFinder, chai
 		nontrivial: r.Counter("traffic_decisions_on_changed_lists"), merged: r.Counter("traffic_lists_with_merged_rules"),
 		deduped: r.Counter("traffic_lists_with_removed_values"), geo: r.Counter("traffic_lists_with_geodata"),
 		reordered: r.Counter("traffic_lists_only_reordered"), byRule: r.Counter("traffic_decisions_by_a_rule"),
-		negMergeable: r.Counter("traffic_lists_with_adjacent_negated_same_function_same_outbound")}
+		negMergeable: r.Counter("traffic_lists_with_adjacent_negated_same_function_same_outbound"),
+		dupSkipped:   r.Counter("traffic_duplicate_lists_skipped"), seen: map[uint64]struct{}{}}
 	t.id2name = make([]string, int(consts.OutboundUserDefinedMin)+len(vroute.Groups))
 	t.id2name[consts.OutboundDirect], t.id2name[consts.OutboundBlock] = "direct", "block"
 	for i, g := range vroute.Groups {
@@ -523,7 +529,26 @@ func hasNegMergeable(p *vroute.Program) bool {
 
 var legNames = []string{"optimised", "alias-only"}
 
+// firstTime: a list reachable through two spaces (the cross-family alphabet shares symbols with the family
+// alphabets) is evaluated once, in the earlier space.
+func (t *trafficLeg) firstTime(prog *vroute.Program) bool {
+	h := fnv.New64a()
+	h.Write([]byte(prog.OneLine()))
+	k := h.Sum64()
+	t.seenMu.Lock()
+	defer t.seenMu.Unlock()
+	if _, dup := t.seen[k]; dup {
+		return false
+	}
+	t.seen[k] = struct{}{}
+	return true
+}
+
 func (t *trafficLeg) one(spaceOrd int, idx int, prog *vroute.Program, opts vroute.PacketOpts, viaText bool) {
+	if !t.firstTime(prog) {
+		t.dupSkipped.Add(1)
+		return
+	}
 	c, berr, herr := t.compileTraffic(prog, viaText)
 	if herr != nil {
 		fmt.Fprintln(os.Stderr, "C04: harness error:", herr)
